@@ -194,6 +194,26 @@ func genMapSession(r *rand.Rand, i int) J {
 	if n <= 3 {
 		c["anyorder"] = n
 	}
+	if i%6 == 2 {
+		// a map whose keys are held indirectly (pointers to strings, Drops on a pointer type): turned into text, looped
+		// over and joined it shows what the keys stand for - the same in every process, and never an address.
+		// (What such a map answers to m.key is not the reference's business: judged on determinism.)
+		c["reprs"] = []any{J{"m": pick(r, []string{"ptrkeys", "dropkeys"})}}
+		c["noref"] = true
+		c["templates"] = []any{
+			[]any{nObj(eVar("m"))},
+			mapLoop("m"),
+			[]any{nObj(eFilter(eVar("m"), "join", eLit(vStr(","))))},
+			[]any{nObj(eFilter(eVar("m"), "append", eVar("s")))},
+			[]any{J{"t": "for", "tag": "for", "var": bs("p"), "coll": eVar("m"), "body": []any{nObj(eVar("p")), nText(";")}}},
+			[]any{nObj(eFilter(eFilter(eVar("m"), "reverse"), "first"))},
+		}
+		for _, ox := range ops {
+			delete(ox.(J), "shuffle") // (shuffled() rebuilds string-keyed maps only)
+		}
+		delete(c, "anyorder")
+		return c
+	}
 	if i%6 == 5 {
 		// the caller keeps one bindings object and edits it between renders: the map loses some keys and gains as many
 		// others, in place - what is rendered is what it holds now
